@@ -5,6 +5,7 @@ stay functional, and the lifecycle fields are touched by `enter` / `exit` only.
 import AsphaltModel.Context
 import AsphaltProofs.Lemmas.Assoc
 import AsphaltProofs.Lemmas.ExitWith
+import AsphaltProofs.Lemmas.GetNow
 
 namespace Asphalt
 
@@ -305,11 +306,16 @@ theorem ctxCancelGet_ext (cid : CtxId) (x : Ctx) (lid : TaskId) (next : Option T
     · exact Ext.of_fields rfl rfl rfl rfl rfl rfl
     · exact Ext.refl _
 
+theorem ctxGetNow_ext (cid : CtxId) (x : Ctx) (k : Key) (opt : Bool) :
+    Ext x (ctxGetNow cid x k opt).1 :=
+  ctxGetNow_transfer (Ext x) cid x k opt (Ext.refl _) (fun t => ctxGet_ext cid x t k opt)
+
 theorem runBodyOp_ext (cid : CtxId) (cur : Option CtxId) (x : Ctx) (op : BodyOp) : Ext x (runBodyOp cid cur x op).1 := by
   cases op with
   | add types name v => exact ctxAdd_ext _ _ _
   | addFactory types name fid => exact ctxAddFactory_ext _ _ _
   | getNowait ty name opt => exact ctxGetNowait_ext _ _ _ _
+  | get ty name opt => exact ctxGetNow_ext _ _ _ _
   | current => exact Ext.refl _
 
 theorem runBody_ext (cid : CtxId) (cur : Option CtxId) (x : Ctx) (ops : List BodyOp) : Ext x (runBody cid cur x ops).1 := by
